@@ -85,15 +85,12 @@ theorem usageStep_keeps (m : Module) (b : Binding) (hb : b ∈ m.allNames)
       cases e with
       | multi nm alts =>
         simp only at hstep
-        by_cases hl : nm = "locals"
-        · simp [hl] at hstep
-        · simp only [hl, if_false] at hstep
-          cases hstep
-          refine ⟨?_, hq⟩
-          intro hin
-          rcases List.mem_append.mp hin with h | h
-          · exact hne (hwk.2 b.id (by simpa [Entry.ids] using h) b hb rfl).symm
-          · exact hu h
+        cases hstep
+        refine ⟨?_, hq⟩
+        intro hin
+        rcases List.mem_append.mp hin with h | h
+        · exact hne (hwk.2 b.id (by simpa [Entry.ids] using h) b hb rfl).symm
+        · exact hu h
       | single s =>
         simp only at hstep
         by_cases hl : s.name = "locals" ∧ s.locZero = true
@@ -195,9 +192,7 @@ theorem usageStep_diags (st st' : St) (r : Read) (h : usageStep st r = .ok st')
       rcases List.mem_append.mp hdm with h1 | h1
       · exact hd d h1
       · simp at h1; subst h1; simp [Diag.isW]
-    · split at h
-      · simp at h
-      · cases h; exact hd
+    · cases h; exact hd
     · split at h <;> (cases h; exact hd)
 
 theorem usageLoop_diags : ∀ (rs : List Read) (st st' : St), usageLoop st rs = .ok st' →
@@ -275,31 +270,24 @@ theorem once (m : Module) (ds : List Diag) (h : lintModel m = .ok ds) :
 
 /-! ### when the usage loop answers -/
 
-theorem usageStep_ok (st : St) (r : Read) (h : r.multiLocals = false) : ∃ st', usageStep st r = .ok st' := by
+theorem usageStep_ok (st : St) (r : Read) : ∃ st', usageStep st r = .ok st' := by
   unfold usageStep
-  unfold Read.multiLocals at h
   split
   · exact ⟨_, rfl⟩
-  · rename_i fl hfl
-    simp only [hfl] at h
-    split
+  · split
     · exact ⟨_, rfl⟩
-    · rename_i nm alts hlk
-      simp only [hlk] at h
-      have : nm ≠ "locals" := by simpa using h
-      simp [this]
+    · exact ⟨_, rfl⟩
     · split <;> exact ⟨_, rfl⟩
 
-theorem usageLoop_ok : ∀ (rs : List Read) (st : St), (∀ r ∈ rs, r.multiLocals = false) →
-    ∃ st', usageLoop st rs = .ok st'
-  | [], st, _ => ⟨st, rfl⟩
-  | r :: rs, st, h => by
-    obtain ⟨st1, h1⟩ := usageStep_ok st r (h r List.mem_cons_self)
-    obtain ⟨st2, h2⟩ := usageLoop_ok rs st1 (fun x hx => h x (List.mem_cons_of_mem _ hx))
+theorem usageLoop_ok : ∀ (rs : List Read) (st : St), ∃ st', usageLoop st rs = .ok st'
+  | [], st => ⟨st, rfl⟩
+  | r :: rs, st => by
+    obtain ⟨st1, h1⟩ := usageStep_ok st r
+    obtain ⟨st2, h2⟩ := usageLoop_ok rs st1
     exact ⟨st2, by simp [usageLoop, h1, h2]⟩
 
-theorem total_partial (m : Module) (h : NoMultiLocals m) : ∃ ds, lintModel m = .ok ds := by
-  obtain ⟨st, hst⟩ := usageLoop_ok m.reads St.init h
+theorem total (m : Module) : ∃ ds, lintModel m = .ok ds := by
+  obtain ⟨st, hst⟩ := usageLoop_ok m.reads St.init
   exact ⟨st.diags ++ m.allNames.filterMap (reportOf st), by simp [lintModel, usage, hst]⟩
 
 end SuppModel.Lint
